@@ -418,7 +418,8 @@ def thin_map(case, r):
             okc = np.any(np.all(np.abs(cands - got) <= 1e-9 * (cscale[touch[j, i]][:, None] + 1e-300), axis=1)) \
                 if isvec else np.any(np.abs(cands - got) <= 1e-9 * (np.abs(cands) + 1e-300))
             if not okc:
-                r.bad(["face-pixel-foreign-value", name], f"pixel (j={j}, i={i}) on a cell face shows {got!r}, touching cells have "
+                # (signature "vec" for both vector modes: the recorded finding is the torn write of a vector pixel on a face)
+                r.bad(["face-pixel-foreign-value", "vec" if isvec else name], f"pixel (j={j}, i={i}) on a cell face shows {got!r}, touching cells have "
                       f"{cands.tolist()}")
                 return
         if lay.get("unit") is None:
